@@ -31,7 +31,7 @@ META = {
     "bounds": "atom argument length 2 (vector atoms) / 2 elements (element-wise atoms); one constraint per model plus bounds",
     "trusted_base": ["z3/cvc5 (NRA + EUF)", "M5/M6: the textbook cone forms of exp/log/entropy/softplus/KL (mathematics)", "ShimCSR, NumPy on object arrays"],
     "assumptions": ["A-UFEXP: exponential-cone atoms are judged through an uninterpreted cone predicate",
-                    "not covered: p-norm/power/geometric-mean towers beyond the weight bookkeeping of C07, 'N' p-norm via exp cones, log-det/root-det LMIs"],
+                    "p-norm/power/geometric-mean: call-site contracts here, the tower lemma itself in C07; not covered: 'N' p-norm via exp cones, log-det/root-det LMIs"],
 }
 
 
@@ -649,6 +649,8 @@ def objective_case(name, which=("sound", "exact")):
 def jobs(tier):
     js = [{"name": f"constr-{n}", "kind": "constr", "case": n} for n in CASES]
     js += [{"name": f"objective-{n}", "kind": "objective", "case": n} for n in OBJECTIVES]
+    # p-norm / power / geometric mean: soundness = (call-site contract of the G/T/C branches) + (tower lemma, C07)
+    js.append({"name": "tower-callsites", "kind": "tower_callsites"})
     return js
 
 
@@ -657,4 +659,7 @@ def run_job(job):
         return constraint_case(job["case"], "ro", ("sound",))
     if job["kind"] == "objective":
         return objective_case(job["case"], ("sound",))
+    if job["kind"] == "tower_callsites":
+        from . import c07
+        return c07.tower_callsites()
     raise ValueError(job["kind"])
